@@ -129,6 +129,111 @@ def oracle_history(cwd, keys, ops, obs):
     return None
 
 
+# ------------------------------------------------------------------ histories on a real rooted filesystem (symbolic links)
+
+LFS_LINKS = ["L", "M", "d/s", "a/k", "a/b/k", "d/t", "a/L"]
+LFS_THROUGH = ["", "/..", "/../..", "/../../..", "/f", "/a", "/../f", "/../OUT-secret.txt", "/OUT-secret.txt", "/../..//a", "/./..",
+               "/b/../..", "/a/../..", "/../OUT-dir", "/../OUT-dir/f", "/../base", "/../basex/f", "/w"]
+LFS_SEGS = ["a", "b", "d", "s", "k", "f", "L", "M", "e", "..", ".", "t"]
+
+
+def lfs_op(name, *args):
+    return name + "".join(":" + a.encode().hex() for a in args)
+
+
+def lfs_chains():
+    """every two-link chain over a small alphabet: a first link whose target is as shallow as or shallower than the link
+    itself, then a second link whose (relative or absolute) target walks through the first one; then operations through
+    the second"""
+    out = []
+    for l1 in ("d/s", "a/b/k", "M"):
+        for t1 in ("/", ".", "a/..", "d", "a/b", "/a", "d/..", ""):
+            for up in ("/..", "/../..", "/../../..", "/a/../..", "/.", "", "/../OUT-dir", "/../f"):
+                for l2 in ("L", "a/L", "d/L"):
+                    for lead in ("", "/"):
+                        out.append([lfs_op("Symlink", t1, l1), lfs_op("Symlink", lead + l1 + up, l2),
+                                    lfs_op("ReadFile", l2 + "/OUT-secret.txt"), lfs_op("ReadDir", l2),
+                                    lfs_op("WriteFile", l2 + "/w")])
+    return out
+
+
+def lfs_random(rng, n):
+    out = []
+    for _ in range(n):
+        links = []
+        ops = []
+
+        def path(prefer_link):
+            if links and rng.chance(2, 3) if prefer_link else (links and rng.chance(1, 4)):
+                p = rng.choice(links) + rng.choice(LFS_THROUGH)
+            else:
+                p = "/".join(rng.choice(LFS_SEGS) for _ in range(1 + rng.below(4)))
+                if rng.chance(1, 8):
+                    p = rng.choice(["/", ".", "", "a/..", "d/.."])
+            if rng.chance(1, 4):
+                p = "/" + p
+            if rng.chance(1, 10):
+                p += "/"
+            return p
+        for _ in range(2 + rng.below(7)):
+            r = rng.below(20)
+            if r < 7:
+                new = rng.choice(LFS_LINKS) if rng.chance(3, 4) else path(False)
+                ops.append(lfs_op("Symlink", path(True), new))
+                links.append(new.strip("/"))
+            elif r < 9:
+                ops.append(lfs_op(rng.choice(["Mkdir", "MkdirAll"]), rng.choice(["dd", "d/e", "a/b/c", "e"]) if rng.chance(1, 2) else path(True)))
+            elif r < 12:
+                src = rng.choice(links + ["a", "d", "a/b"]) if rng.chance(3, 4) else path(True)
+                dst = rng.choice(["N", "a/N", "a/b/N", "d/N", "e/N"]) if rng.chance(2, 3) else path(True)
+                ops.append(lfs_op("Rename", src, dst))
+                if src in links:
+                    links.append(dst.strip("/"))
+            elif r < 15:
+                ops.append(lfs_op(rng.choice(["ReadFile", "ReadDir", "Stat", "WalkDir"]), path(True)))
+            elif r < 18:
+                ops.append(lfs_op(rng.choice(["WriteFile", "Create"]), path(True)))
+            else:
+                ops.append(lfs_op(rng.choice(["Remove", "RemoveAll"]), path(True)))
+        out.append(ops)
+    return out
+
+
+def lfs_describe(ops):
+    out = []
+    for o in ops:
+        f = o.split(":")
+        out.append("%s(%s)" % (f[0], ", ".join(repr(bytes.fromhex(x).decode("utf-8", "replace")) for x in f[1:])))
+    return out
+
+
+def run_lfs_histories(obs, hists, work):
+    nshard = max(1, min(C.NCPU, 8))
+    shards = [hists[i::nshard] for i in range(nshard)]
+
+    def one(i):
+        if not shards[i]:
+            return 0, "", ""
+        env = dict(os.environ)
+        env["TMPDIR"] = work
+        p = subprocess.run([obs, "lfshist"], input=("\n".join(";".join(h) for h in shards[i]) + "\n").encode(),
+                           stdout=subprocess.PIPE, stderr=subprocess.PIPE, env=env)
+        return p.returncode, p.stdout.decode("utf-8", "replace"), p.stderr.decode("utf-8", "replace")
+    with ThreadPoolExecutor(max_workers=nshard) as ex:
+        outs = list(ex.map(one, range(nshard)))
+    res = [None] * len(hists)
+    import json
+    for i, (rc, o, e) in enumerate(outs):
+        if rc != 0:
+            return None, "c13obs lfshist rc=%s %s" % (rc, (o + e)[-800:])
+        lines = [json.loads(x) for x in o.splitlines() if x.strip()]
+        if len(lines) != len(shards[i]):
+            return None, "c13obs lfshist answered %d of %d histories" % (len(lines), len(shards[i]))
+        for k, j in enumerate(lines):
+            res[i + k * nshard] = j
+    return res, ""
+
+
 # ------------------------------------------------------------------ running both sides
 
 def run_pipe(cmd, stdin_path=None, out_path=None):
@@ -256,6 +361,56 @@ def _run_body(res, tier, obs, model, work, maxseg, mount_seg, lfs_seg, nrand, pr
     nontrivial = set()
     samples = []
 
+    # histories of localfs operations on a real tree: symbolic links made through the filesystem, chains of them,
+    # renames, and operations through them
+    lfs_h = lfs_chains() + lfs_random(rng, 4000 if tier == "quick" else 60000)
+    lfs_res, err = run_lfs_histories(obs, lfs_h, work)
+    if lfs_res is None:
+        res.violation({"property": PROP, "kind": "harness-run-failed", "stage": "c13obs lfshist", "log": err}, nofail=True, tag="lfshist")
+        return
+    link_recs = []
+    lfs_stats = {"histories": len(lfs_h), "operations": 0, "links_made": 0, "links_through_links": 0, "rejected": 0}
+    for h, r in zip(lfs_h, lfs_res):
+        evals += 1
+        lfs_stats["operations"] += len(r["res"])
+        lfs_stats["rejected"] += sum(1 for x in r["res"] if x == "invalid")
+        made = []
+        for k, old_hex, stored_hex in r["links"]:
+            lfs_stats["links_made"] += 1
+            oldp = bytes.fromhex(old_hex).decode("utf-8", "replace")
+            f = h[int(k)].split(":")
+            newp = bytes.fromhex(f[2]).decode("utf-8", "replace").strip("/")
+            if any(m and (oldp.strip("/") + "/").startswith(m + "/") for m in made):
+                lfs_stats["links_through_links"] += 1
+                nontrivial.add(("lfshist", tuple(h[:int(k) + 1])))
+            made.append(newp)
+            link_recs.append((h, int(k), old_hex, stored_hex))
+        if r.get("problem") and len(corr_diffs) < 50:
+            corr_diffs.append({"stage": "lfshist-resolver", "history": lfs_describe(h), "why": r["problem"]})
+        if r["viol"]:
+            oracle_viol.append({"stage": "lfshist", "history": lfs_describe(h[:len(r["res"])]), "ops": h[:len(r["res"])],
+                                "results": r["res"], "why": r["viol"][0], "all_observations": r["viol"]})
+    # the text stored in a link made by Symlink(old, new) must be what the model resolves `old` to under the base
+    if link_recs:
+        uniq = sorted({x[2] for x in link_recs})
+        rc, o, e = C.run([model, "stdin-resolve", "/B"], input=("\n".join(uniq) + "\n").encode(), timeout=600)
+        want = {}
+        for line in o.splitlines():
+            f = line.split("\t")
+            if len(f) == 3:
+                want[f[0]] = f[2]
+        for h, k, old_hex, stored_hex in link_recs:
+            mv = want.get(old_hex)
+            stored = bytes.fromhex(stored_hex).decode("utf-8", "replace")
+            exp = None
+            if mv and mv.startswith("OK "):
+                exp = "@BASE" + bytes.fromhex(mv[3:]).decode("utf-8", "replace")[len("/B"):]
+            if exp != stored and len(corr_diffs) < 50:
+                corr_diffs.append({"stage": "lfshist-link-text", "history": lfs_describe(h[:k + 1]), "impl": stored, "model": exp if exp else mv})
+    cov["localfs_histories"] = lfs_stats
+    if lfs_res:
+        samples.append({"stage": "lfshist", "history": lfs_describe(lfs_h[len(lfs_h) // 2]), "impl": lfs_res[len(lfs_h) // 2]})
+
     def unhex(s):
         return bytes.fromhex(s).decode("utf-8", "replace")
 
@@ -358,10 +513,15 @@ def _run_body(res, tier, obs, model, work, maxseg, mount_seg, lfs_seg, nrand, pr
                    "for %d bases and, with <= %d segments (%d strings), through every single- and two-path method of VirtualOS "
                    "over %d mount layouts with recording filesystems; %d seeded random Unicode/byte paths through both; "
                    "%d operation histories on one VirtualOS (Chdir between mounts, the same relative strings reused); "
-                   "every localfs method over a temp tree with sentinels outside the base (<= %d segments); each output compared "
+                   "every localfs method over a temp tree with sentinels outside the base (<= %d segments); %d histories of localfs "
+                   "operations on a real tree (every two-link chain over a small alphabet, random histories of Mkdir / Symlink / "
+                   "Rename / reads / writes / removes with paths that walk through links made earlier): after every operation every "
+                   "symbolic link inside the base is resolved physically (as the kernel does) and must lead into the base, nothing "
+                   "outside may change, no read may reveal outside content, and the stored link text must be the model's "
+                   "resolve_path of the first argument; each output compared "
                    "with the extracted Gallina model and judged by an independent Python oracle. Non-trivial = distinct inputs "
                    "containing '..' that resolve, or that are served by some mount." % (
-                       maxseg, npaths, len(BASES), mount_seg, npaths_m, len(LAYOUTS), len(rnd), len(hists), lfs_seg))
+                       maxseg, npaths, len(BASES), mount_seg, npaths_m, len(LAYOUTS), len(rnd), len(hists), lfs_seg, len(lfs_h)))
     cov["exhaustive"] = True
     cov["samples"] = samples
     cov["correspondence"] = {"cases": evals - lfs_evals, "differences": len(corr_diffs),
@@ -371,7 +531,9 @@ def _run_body(res, tier, obs, model, work, maxseg, mount_seg, lfs_seg, nrand, pr
     res.assumptions += [
         "Go's path/filepath.Clean/Join/IsAbs and strings.HasPrefix/TrimPrefix are modelled (Unix semantics), validated by the exhaustive comparison",
         "mount table keys equal Mount.Target and are clean absolute paths (hypothesis key_ok of the mount theorems)",
-        "symlinks inside the base are outside the property (path strings only)",
+        "symbolic links: only links made THROUGH the rooted filesystem are judged (histories on a real tree); links planted in "
+        "the base by the host are outside the property",
+        "kernel path resolution is modelled by the harness's component-by-component resolver (physical) and by PhysLinks.v",
     ]
 
     # 6. decide
@@ -405,6 +567,9 @@ def replay(data):
         inp = data["input"] if st == "resolve-hex" else data["input"].encode("utf-8", "surrogateescape").hex()
         rc, o, e = C.run([obs, "stdin-resolve", data["params"]], input=(inp + "\n").encode())
         print(o)
+    elif st == "lfshist":
+        rc, o, e = C.run([obs, "lfshist"], input=(";".join(data["ops"]) + "\n").encode())
+        print(o, e)
     elif st in ("mounts", "mounts-hex"):
         inp = data["input"] if st == "mounts-hex" else data["input"].encode("utf-8", "surrogateescape").hex()
         rc, o, e = C.run([obs, "stdin-mounts", data["params"][0], ",".join(data["params"][1])], input=(inp + "\n").encode())
